@@ -180,7 +180,8 @@ def git(cwd, *args, stdin=None, check=True, env=None):
 def write_files(root, files):
     """files: {relative path: str|bytes}."""
     for rel, data in files.items():
-        path = os.path.join(root, rel)
+        # a bytes key is a file name that is not valid UTF-8 (legal on Linux; git then quotes the path in its diffs)
+        path = os.path.join(os.fsencode(root), rel) if isinstance(rel, bytes) else os.path.join(root, rel)
         d = os.path.dirname(path)
         if d and not os.path.isdir(d):
             os.makedirs(d, exist_ok=True)
